@@ -273,15 +273,106 @@ theorem residual_fitted (s : Spec) (dof : Bool) (Y X : OMat) (pr : Option (List 
   rw [← rhsEst_entry s dof Y X pr e h r k r.isLt hk]
   rfl
 
+/-! ### the residual covariance and the mean of the model -/
+
+/-- the covariance a successful `estimate` returns, and its (non-zero) denominator -/
+theorem estimate_cov (s : Spec) (dof : Bool) (Y X : OMat) (pr : Option (List Prior)) (e : Estimate)
+    (h : estimate s dof Y X pr = .ok e) :
+    ∃ denom : Int, denom ≠ 0 ∧
+      denom = ((fitted s Y X).length : Int) - (if dof then (dofCount s : Int) else 0) ∧
+      e.cov = covResiduals s e.u (fitted s Y X) denom := by
+  unfold estimate at h
+  simp only at h
+  split at h
+  · cases h
+  · split at h
+    · cases h
+    split at h
+    · cases h
+    · generalize hd : ((fitted s Y X).length : Int) - (if dof = true then (dofCount s : Int) else 0) = denom at h
+      split at h
+      · cases h
+      · rename_i hden
+        injection h with h
+        subst h
+        exact ⟨denom, hden, rfl, rfl⟩
+
+/-- **`C18.cov_residuals_spec` carried down**: the model's `cov` is `(1/d) U Uᵀ` for the matrix `U` of the reported
+residuals on the fitted periods (the `symmetrize` step changes nothing), it is symmetric, `d · cov = U Uᵀ`, and its
+diagonal is non-negative when `d > 0` -/
+theorem estimate_cov_spec (s : Spec) (dof : Bool) (Y X : OMat) (pr : Option (List Prior)) (e : Estimate)
+    (h : estimate s dof Y X pr = .ok e) :
+    ∃ d : ℚ, d ≠ 0 ∧ d = ((fitted s Y X).length : ℚ) - (if dof then (s.numRhs : ℚ) else 0) ∧
+      let U : Matrix (Fin s.n) (Fin (fitted s Y X).length) ℚ :=
+        fun i k => (e.u.get i ((fitted s Y X).getD k 0)).getD 0
+      e.cov.toMat s.n s.n = (1 / d) • (U * Uᵀ) ∧ (e.cov.toMat s.n s.n)ᵀ = e.cov.toMat s.n s.n ∧
+      d • e.cov.toMat s.n s.n = U * Uᵀ ∧ (0 < d → ∀ i, 0 ≤ e.cov.toMat s.n s.n i i) := by
+  obtain ⟨denom, hden, hdef, hcov⟩ := estimate_cov s dof Y X pr e h
+  refine ⟨(denom : ℚ), by exact_mod_cast hden, ?_, ?_⟩
+  · rw [hdef]
+    cases dof <;> simp [dofCount]
+  · intro U
+    set uw := QMat.ofFn s.n (fitted s Y X).length (fun i k => (e.u.get i ((fitted s Y X).getD k 0)).getD 0) with huw
+    have hU : uw.toMat s.n (fitted s Y X).length = U := by
+      rw [huw, toMat_ofFn]; rfl
+    have hc : (QMat.smul (1 / (denom : Rat)) (uw * uw.transpose)).toMat s.n s.n = (1 / (denom : ℚ)) • (U * Uᵀ) := by
+      rw [toMat_smul _ _ s.n s.n rfl rfl, toMat_mul _ _ s.n (fitted s Y X).length s.n rfl rfl rfl,
+        toMat_transpose uw s.n (fitted s Y X).length rfl rfl, hU]
+    have hview : e.cov.toMat s.n s.n
+        = (1 / (2 : ℚ)) • ((1 / (denom : ℚ)) • (U * Uᵀ) + ((1 / (denom : ℚ)) • (U * Uᵀ))ᵀ) := by
+      rw [hcov]
+      unfold covResiduals
+      simp only
+      rw [toMat_smul _ _ s.n s.n rfl rfl, toMat_add _ _ s.n s.n rfl rfl,
+        toMat_transpose (QMat.smul (1 / (denom : Rat)) (uw * uw.transpose)) s.n s.n rfl rfl, hc]
+    obtain ⟨g1, g2, g3, g4⟩ := C18.cov_residuals_spec U (denom : ℚ) (by exact_mod_cast hden)
+    have heq : e.cov.toMat s.n s.n = (1 / (denom : ℚ)) • (U * Uᵀ) := by rw [hview]; exact g3
+    rw [heq]
+    exact ⟨rfl, g2, g1, g4⟩
+
+/-- **`C18.mean_fixed_point` carried down**: a mean returned by the model through the checked solve (non-zero
+intercept) satisfies `(I − Σ_l A_l) μ = c`, hence is a fixed point of the VAR recursion without shocks -/
+theorem mean_spec (s : Spec) (p : Nat) (hp : s.p = p + 1) (A : QMat) (c μ : QVec) (hc : c.all (· == 0) = false)
+    (h : mean s A (some c) = some μ) :
+    let Al : Fin (p + 1) → Matrix (Fin s.n) (Fin s.n) ℚ := fun l i j => A.get i (l * s.n + j)
+    (1 - ∑ l, Al l) *ᵥ QVec.toFn μ s.n = QVec.toFn c s.n ∧
+    (∑ l, Al l *ᵥ QVec.toFn μ s.n) + QVec.toFn c s.n = QVec.toFn μ s.n := by
+  intro Al
+  unfold mean at h
+  simp only [hc, Bool.false_eq_true, if_false] at h
+  cases hs : QMat.solveChecked (QMat.identity s.n - sumA s A) (QMat.col c) with
+  | none => rw [hs] at h; cases h
+  | some x =>
+    rw [hs] at h
+    simp only [Option.map_some, Option.some.injEq] at h
+    obtain ⟨_, _, h3, _, _, h6⟩ := solveChecked_sound _ _ x hs
+    have hr : (QMat.identity s.n - sumA s A).rows = s.n := rfl
+    rw [hr, col_cols] at h6
+    rw [hr] at h3
+    have hsys := mulVec_of_mul_col _ x _ h6
+    have hA : (QMat.identity s.n - sumA s A).toMat s.n s.n = 1 - ∑ l, Al l := by
+      rw [toMat_sub _ _ s.n s.n rfl rfl, toMat_identity]
+      congr 1
+      ext i j
+      unfold sumA sumTo
+      rw [toMat_apply, get_ofFn_of_lt _ _ _ _ _ i.isLt j.isLt, foldl_sum, hp, Matrix.sum_apply,
+        ← Fin.sum_univ_eq_sum_range (fun l => A.get i (l * s.n + j)) (p + 1)]
+    have hμ : QVec.toFn μ s.n = fun i : Fin s.n => x.get i 0 := by
+      rw [← h]; exact toFn_toVec x s.n h3
+    have hcv : QVec.toFn c s.n = fun i : Fin s.n => (QMat.col c).get i 0 := by
+      funext i; rw [get_col_zero]; rfl
+    have hfix : (1 - ∑ l, Al l) *ᵥ QVec.toFn μ s.n = QVec.toFn c s.n := by
+      rw [← hA, hμ, hcv]; exact hsys
+    exact ⟨hfix, C18.mean_fixed_point p Al _ _ hfix⟩
+
 /-
 What is NOT bridged for C18:
 * non-singularity of `X Xᵀ` (the hypothesis `hdet` of `estimate_eq_closed_form`/`estimate_noise_free`) is not derived
   from the model: `solveChecked` returning `some` proves `A X = B`, not that `A` is invertible (that would need the
   correctness of Gauss-Jordan `QMat.solve`, unproved by design);
 * the converse (a non-singular system makes `estimate` return `ok`) needs the same;
-* `cov`, the companion form and `mean` of the model are not yet connected to `C18.cov_residuals_spec`,
-  `C18.companion_step`, `C18.mean_fixed_point` (the lemmas `toMat_smul`, `toMat_mul`, `toMat_transpose`,
-  `solveChecked_sound`, `toFn_toVec` are what is needed).
+* the companion form of the model (`companionT`, `companionK`) is not yet connected to `C18.companion_step`
+  (a reindexing `Fin (p+1) × Fin n ≃ Fin ((p+1) n)` is what is needed); `cov` and `mean` are bridged above.
 -/
 
 /-! ## Part B: C01 -- the executable certificate computes the theorem-level certificate matrices
